@@ -164,7 +164,9 @@ class PLIST(Filetype):
     def build_tree_handling_errors(self, path: str, options: Optional[BuildOptions] = None) -> Union[str, TreeNode]:
         try:
             return self.build_tree(path=path, options=options)
-        except ExpatError as ee:
+        except (ExpatError, ValueError, IndexError) as ee:
+            # plistlib raises InvalidFileException (a ValueError) for files that are not PLISTs at all, and lets
+            # ValueError/IndexError escape for well-formed XML that is not a valid PLIST (bad numbers, stray tags)
             return f'Error parsing {os.path.basename(path)}: {ee})'
 
     def get_default_formatter(self) -> PLISTFormatter:
